@@ -220,7 +220,7 @@ func (e *Exec) builtinCopy(dst *SliceV, srcv Value) Value {
 		k = len(srcCells)
 	}
 	// make sure n <= k is implied
-	if r := e.S.CheckWith(e.B.BvCmp(OBvSlt, e.mkInt(int64(k)), n)); r != Unsat {
+	if r := e.check(e.B.BvCmp(OBvSlt, e.mkInt(int64(k)), n)); r != Unsat {
 		// try to concretise instead
 		c := int(e.Concretize(n, "copy count"))
 		if c > k {
